@@ -118,10 +118,12 @@ static bool h_delay(void* p, IMasterConnection con, CS101_ASDU asdu, CP16Time2a 
 static bool h_asdu(void* p, IMasterConnection con, CS101_ASDU asdu)
 { printf("cb asdu c%d asdu=", con_index(con)); print_asdu(asdu); printf("\n"); return cfg.hret; }
 static bool h_request(void* p, const char* ip) { printf("req %s ret=%d\n", ip, cfg.reqret); return cfg.reqret; }
+static int close_on_open = 0;   /* (C18) `closeonopen <0|1>`: the application turns every peer away from inside the OPENED notification */
 static void h_event(void* p, IMasterConnection con, CS104_PeerConnectionEvent ev)
 {
     static const char* n[] = {"OPENED", "CLOSED", "ACTIVATED", "DEACTIVATED"};
     printf("ev c%d %s\n", con_index(con), n[ev]);
+    if (close_on_open && ev == CS104_CON_EVENT_CONNECTION_OPENED) IMasterConnection_close(con);
 }
 static void h_raw(void* p, IMasterConnection con, uint8_t* msg, int n, bool sent)
 { printf("raw c%d %s ", con_index(con), sent ? "out" : "in"); puthex(msg, n); printf("\n"); }
@@ -202,7 +204,7 @@ static void reset_all(void)
     if (slave) { CS104_Slave_destroy(slave); slave = NULL; }
     for (int i = 0; i < nsocks; i++) { Sim_freeSocket(socks[i]); socks[i] = NULL; }
     /* sockets still queued for accept are dropped */
-    nsocks = 0; ngroups = 0; reply_counter = 0;
+    nsocks = 0; ngroups = 0; reply_counter = 0; close_on_open = 0;
     Sim_reset(); Sim_setTime(1000000); sim_sem_errors = 0;
     cfg_default();
     hal_null_calls = 0;
@@ -286,6 +288,7 @@ int main(void)
             }
             free(b);
         }
+        else if (!strcmp(cmd, "closeonopen")) { sscanf(line, "%*s %d", &close_on_open); }
         else if (!strcmp(cmd, "peerclose")) { int ci; sscanf(line, "%*s c%d", &ci); if (ci >= 0 && ci < nsocks && socks[ci]) Sim_peerClose(socks[ci]); }
         else if (!strcmp(cmd, "wmode")) { int ci, m; sscanf(line, "%*s c%d %d", &ci, &m); if (ci >= 0 && ci < nsocks && socks[ci]) socks[ci]->writeMode = m; }
         else if (!strcmp(cmd, "appclose")) { int ci; sscanf(line, "%*s c%d", &ci); MasterConnection mc = con_of(ci); if (mc) IMasterConnection_close(&mc->iMasterConnection); }
